@@ -9,7 +9,9 @@
 (*  Hook{point,env,task,phase,what,st,who,active,why,reused,dets}          *)
 (*  MAccept{tasks:[{task,role,env}]}  MUpdate{task,state}  MKill{task}     *)
 (*  MTriggerHook{task,env}  HookStart{hook,env,trig}  MMessage{event,task, *)
-(*  env}  Snapshot{envs:[{env,st,dets,tasks}],tasks:[{task,owner,locked,   *)
+(*  env}  Fault{kind,task,tasks} (EXECUTOR_LOST / AGENT_LOST: tasks = the   *)
+(*  tasks of that executor / agent)  MasterUpdate{task,kind}  Snapshot{      *)
+(*  envs:[{env,st,dets,tasks}],tasks:[{task,owner,locked,   *)
 (*  status}],active_dets,master:[{task,terminal,kills}]}  Pending{n}  End  *)
 (*                                                                         *)
 (* Conformance (strict): every line that witnesses a model action must be  *)
@@ -32,6 +34,8 @@ VARIABLES l, mode, scn, case, nviol,
           mfor,     \* monitor: [task -> environment it was launched for] (MAccept)
           mrole,    \* monitor: [task -> role]
           mkill,    \* monitor: tasks a KILL was sent for
+          mlost,    \* monitor: tasks whose executor / agent was reported lost (FAILURE event)
+          mrost,    \* monitor: tasks that were written to the roster
           mret,     \* monitor: [env -> "none" | "destroy_ok" | "create_err"]
           mkeep,    \* monitor: environments whose successful destroy asked to keep the tasks
           minfl,    \* monitor: API calls in flight
@@ -42,8 +46,8 @@ VARIABLES l, mode, scn, case, nviol,
           msnap,    \* monitor: envs part of the previous quiescent Snapshot
           msame     \* monitor: a create was refused because of a detector: the next snapshot must equal msnap
 
-tvars2 == <<l, mode, scn, case, nviol, mown, mlast, mfor, mrole, mkill, mret, mkeep, minfl, mtrig, mgone, mlive, mhold, msnap, msame>>
-mvars == <<mown, mlast, mfor, mrole, mkill, mret, mkeep, minfl, mtrig, mgone, mlive, mhold, msnap, msame>>
+tvars2 == <<l, mode, scn, case, nviol, mown, mlast, mfor, mrole, mkill, mlost, mrost, mret, mkeep, minfl, mtrig, mgone, mlive, mhold, msnap, msame>>
+mvars == <<mown, mlast, mfor, mrole, mkill, mlost, mrost, mret, mkeep, minfl, mtrig, mgone, mlive, mhold, msnap, msame>>
 
 Line == Trace[l]
 Soft(name, cond, detail) == IF cond THEN 0 ELSE IF PrintT(<<"VIOL", name, scn, l, detail>>) THEN 1 ELSE 1
@@ -74,7 +78,7 @@ KillerOfSelect ==
                                  /\ (Line.who = "cleanup") = (k[2] \in {"api", "c"} \/ (k[2] = "d" /\ EnvTasks(k[1]) = {}))}
   IN IF cands = {} THEN <<"none", "none">> ELSE CHOOSE k \in cands : TRUE
 KillerOfSend ==
-  LET cands == {k \in Killers : T \in kq[k]} IN IF cands = {} THEN <<"none", "none">> ELSE CHOOSE k \in cands : TRUE
+  LET cands == {k \in Killers : T \in kq[k] \/ T \in kdrop[k]} IN IF cands = {} THEN <<"none", "none">> ELSE CHOOSE k \in cands : TRUE
 
 LaunchM == {<<Line.tasks[i].role, Line.tasks[i].task>> : i \in 1..Len(Line.tasks)}
 
@@ -97,6 +101,7 @@ HookAct ==
          /\ ~(xpc[E] = "go" /\ xop[E] = Line.what) ->
          DPre(E, Line.what, Ok(Line.what))
     [] p = "env.lock.release" /\ xpc[E] = "go" /\ xop[E] = Line.what -> XTrans(E, Ok(Line.what))
+    [] p = "env.lock.release" /\ Line.what = "GO_ERROR" -> AutoError(E)     \* the workflow-state watcher
     [] p = "env.teardown.phase" ->
          (CASE Line.phase = "left" -> TdLeft(E)
             [] Line.phase = "released1" -> TdReleased1(E)
@@ -141,12 +146,14 @@ Direct ==
     [] a = "Hook" -> HookAct
     [] a = "MAccept" -> LaunchSet(Line.tasks[1].env, LaunchM)
     [] a = "MUpdate" -> IF Line.state = "TASK_RUNNING" THEN TaskRunning(T) ELSE TaskGone(T)
+    [] a = "Fault" -> FailureEvent(SeqSet(Line.tasks))
+    [] a = "MasterUpdate" -> MasterUpdate(T)
     [] OTHER -> FALSE
 
 \* lines that drive the model
 IsTimeout == Line.ev = "ApiReply" /\ Line.timeout
 IsModelLine ==
-  \/ Line.ev \in {"Api", "MAccept"}
+  \/ Line.ev \in {"Api", "MAccept", "Fault", "MasterUpdate"}
   \/ Line.ev = "ApiReply" /\ ~Line.timeout
   \/ Line.ev = "Hook" /\ ~HookIgnored
   \/ Line.ev = "MUpdate" /\ (IF Line.state = "TASK_RUNNING" THEN ~running[T] ELSE alive[T])
@@ -175,7 +182,19 @@ LazyCands ==
   ELSE IF (Line.ev = "Hook" /\ Line.point = "envman.create.registered") \/ (Line.ev = "ApiReply" /\ Line.call = "create")
     THEN {k \in {<<Line.env, "c">>} : KillerPhase(k) /\ kst[k] = "idle"}
   ELSE {}
-LazyFor == LazyCands # {} /\ KillBegin(CHOOSE k \in LazyCands : TRUE)
+\* a task that terminated between the making of the kill list and the sending gets no KILL: seen when the call returns
+SkipCands ==
+  IF Line.ev = "ApiReply" /\ Line.call \in {"destroy", "create", "cleanup"}
+    THEN {<<k, t>> \in Killers \X TaskIds :
+            /\ t \in kq[k] /\ ~alive[t]
+            /\ k \in (IF Line.call = "cleanup" THEN {<<"api", "api">>}
+                      ELSE IF Line.call = "destroy" THEN {<<Line.env, "d">>} ELSE {<<Line.env, "c">>, <<Line.env, "ck">>})}
+  ELSE IF Line.ev = "Hook" /\ Line.point = "envman.create.registered"
+    THEN {<<k, t>> \in {<<Line.env, "c">>} \X TaskIds : t \in kq[k] /\ ~alive[t]}
+  ELSE {}
+LazyFor ==
+  \/ LazyCands # {} /\ KillBegin(CHOOSE k \in LazyCands : TRUE)
+  \/ LazyCands = {} /\ SkipCands # {} /\ (LET c == CHOOSE x \in SkipCands : TRUE IN KillSkip(c[1], c[2]))
 
 (* conformance of a Snapshot line: listing, states (when nothing is in flight), roster, owners *)
 SnapEnvs == {Line.envs[i].env : i \in 1..Len(Line.envs)}
@@ -221,6 +240,9 @@ MonSnapshot ==
       alltasks == UNION {SeqSet(SnapEnv(e).tasks) : e \in SnapEnvs}
   IN
     Soft("OneOwner", \A t \in alltasks : Cardinality(lists(t)) <= 1, {t \in alltasks : Cardinality(lists(t)) > 1})
+  \* at any time: a task an environment owns stays in the roster (GetTasks), whatever is done for other environments
+  + Soft("OwnedInRoster", \A t \in mrost : (Get(mown, t, None) # None /\ t \notin mlost) => t \in SnapTasks,
+         {<<t, mown[t]>> : t \in {u \in mrost : Get(mown, u, None) # None /\ u \notin mlost /\ u \notin SnapTasks}})
   \* at any time: a task is owned only by an environment that is listed
   + SumOrph({e \in {SnapTask(t).owner : t \in SnapTasks} : e # "" /\ e \notin SnapEnvs})
   + Soft("DetExclusive", \A e1, e2 \in SnapEnvs : e1 # e2 => SeqSet(SnapEnv(e1).dets) \cap SeqSet(SnapEnv(e2).dets) = {},
@@ -236,7 +258,11 @@ MonSnapshot ==
 MonStep ==
   LET a == Line.ev IN
   CASE a = "Hook" /\ Line.point = "task.kill.send" ->
-         Soft("KillUnowned", ~Line.locked /\ Get(mown, T, None) = None, <<T, Line.locked, Get(mown, T, None)>>)
+         \* (a task whose executor or agent was reported lost is dead and unlocked on purpose)
+         Soft("KillUnowned", ~Line.locked /\ (Get(mown, T, None) = None \/ T \in mlost), <<T, Line.locked, Get(mown, T, None)>>)
+    [] a = "Hook" /\ Line.point = "task.kill.select" ->
+         \* what a Cleanup() / KillTasks() takes out of the roster is owned by nobody
+         Soft("SelectUnowned", Get(mown, T, None) = None \/ T \in mlost, <<T, Line.who, Get(mown, T, None)>>)
     [] a = "Hook" /\ Line.point = "task.lock" ->
          Soft("LockUnowned", Get(mown, T, None) \in {E, None}, <<T, E, Get(mown, T, None)>>)
     [] a = "Hook" /\ Line.point = "task.unlock" /\ Line.why = "release" ->
@@ -271,6 +297,8 @@ MonUpdate ==
   /\ mrole' = IF a = "MAccept" THEN [t \in DOMAIN mrole \cup {m[2] : m \in LaunchM} |->
                                       IF t \in DOMAIN mrole THEN mrole[t] ELSE (CHOOSE m \in LaunchM : m[2] = t)[1]]
               ELSE mrole
+  /\ mlost' = IF a = "Fault" THEN mlost \cup SeqSet(Line.tasks) ELSE mlost
+  /\ mrost' = IF a = "Hook" /\ Line.point = "task.roster.appended" THEN mrost \cup {T} ELSE mrost
   /\ mkill' = IF a = "MKill" \/ (a = "Hook" /\ Line.point = "task.kill.send") THEN mkill \cup {T} ELSE mkill
   /\ mret' = IF a = "ApiReply" /\ Line.call = "destroy" /\ Line.code = "OK" THEN Put(mret, E, "destroy_ok")
              ELSE IF a = "ApiReply" /\ Line.call = "create" /\ Line.code # "OK" /\ ~Line.timeout THEN Put(mret, E, "create_err")
@@ -309,10 +337,11 @@ ModelInit ==
   /\ dforced' = [e \in Envs |-> FALSE] /\ dkeepEff' = [e \in Envs |-> FALSE] /\ dplan' = [e \in Envs |-> None]
   /\ ktargets' = [e \in Envs |-> {}]
   /\ kq' = [k \in Killers |-> {}] /\ ksent' = [k \in Killers |-> {}] /\ ksel' = [k \in Killers |-> {}]
-  /\ kpre' = [k \in Killers |-> {}] /\ kact' = [k \in Killers |-> {}]
+  /\ kpre' = [k \in Killers |-> {}] /\ kact' = [k \in Killers |-> {}] /\ kdrop' = [k \in Killers |-> {}]
   /\ kst' = [k \in Killers |-> "idle"]
   /\ tenv' = [t \in TaskIds |-> None] /\ trole' = [t \in TaskIds |-> None] /\ owner' = [t \in TaskIds |-> None]
   /\ inRoster' = [t \in TaskIds |-> FALSE] /\ running' = [t \in TaskIds |-> FALSE] /\ standby' = [t \in TaskIds |-> TRUE]
+  /\ blank' = [t \in TaskIds |-> FALSE] /\ werr' = [e \in Envs |-> FALSE]
   /\ alive' = [t \in TaskIds |-> FALSE] /\ triggered' = [t \in TaskIds |-> FALSE] /\ killSent' = [t \in TaskIds |-> FALSE]
   /\ lastOwner' = [t \in TaskIds |-> None] /\ killedOwned' = FALSE /\ cmdForeign' = FALSE
   /\ conflictIn' = FALSE /\ hooksEarly' = FALSE /\ crashed' = FALSE
@@ -324,7 +353,7 @@ TReset ==
   /\ ModelInit
   \* (strict = FALSE: a hand-scheduled scenario outside the schedules LifecycleGen produces: monitor only)
   /\ scn' = Line.scn /\ case' = Line.model /\ mode' = (IF Line.model.strict THEN "ok" ELSE "lost") /\ nviol' = nviol /\ l' = l + 1
-  /\ mown' = EmptyF /\ mlast' = EmptyF /\ mfor' = EmptyF /\ mrole' = EmptyF /\ mkill' = {} /\ mret' = EmptyF /\ mkeep' = {}
+  /\ mown' = EmptyF /\ mlast' = EmptyF /\ mfor' = EmptyF /\ mrole' = EmptyF /\ mkill' = {} /\ mlost' = {} /\ mrost' = {} /\ mret' = EmptyF /\ mkeep' = {}
   /\ minfl' = 0 /\ mtrig' = EmptyF /\ mgone' = {} /\ mlive' = EmptyF /\ mhold' = EmptyF /\ msnap' = [ok |-> FALSE, envs |-> <<>>] /\ msame' = FALSE
 
 \* a silent step of the code: the line is not consumed
@@ -334,7 +363,7 @@ TSilent ==
      \/ EagerCands = {} /\ IsModelLine /\ ~ENABLED Direct /\ LazyFor
   /\ UNCHANGED tvars2
 
-NoSilent == EagerCands = {} /\ ~(IsModelLine /\ LazyCands # {} /\ ~ENABLED Direct)
+NoSilent == EagerCands = {} /\ ~(IsModelLine /\ (LazyCands # {} \/ SkipCands # {}) /\ ~ENABLED Direct)
 
 \* the line is the model action it names
 TMatch ==
@@ -369,7 +398,7 @@ TLost ==
 TraceInit ==
   /\ Init
   /\ l = 1 /\ mode = "lost" /\ scn = -1 /\ case = NoCase /\ nviol = 0
-  /\ mown = EmptyF /\ mlast = EmptyF /\ mfor = EmptyF /\ mrole = EmptyF /\ mkill = {} /\ mret = EmptyF /\ mkeep = {}
+  /\ mown = EmptyF /\ mlast = EmptyF /\ mfor = EmptyF /\ mrole = EmptyF /\ mkill = {} /\ mlost = {} /\ mrost = {} /\ mret = EmptyF /\ mkeep = {}
   /\ minfl = 0 /\ mtrig = EmptyF /\ mgone = {} /\ mlive = EmptyF /\ mhold = EmptyF /\ msnap = [ok |-> FALSE, envs |-> <<>>] /\ msame = FALSE
 
 TraceNext ==
